@@ -15,7 +15,7 @@ RULE = ("cross product noise mode x constraint family (incl. measure-zero hyperp
 RUN_KW = {"quick": dict(timeout_case=150, wall_cap=700), "thorough": dict(timeout_case=400, wall_cap=3300)}
 ASSUMPTIONS = ["generated problems are valid by construction (ctor ValueError for an infeasible snapped start is legitimate and not judged)"]
 
-RARE = ("empty-es-generation", "empty-search-set", "duplicate-merge", "second-gp-fit", "local-refit", "es-population-shrunk")
+RARE = ("empty-es-generation", "empty-search-set", "duplicate-merge", "second-gp-fit", "local-refit", "es-population-shrunk", "gp-fit-retried")
 
 
 def cases(tier, seed):
@@ -25,7 +25,7 @@ def cases(tier, seed):
         rng = gen.rng_for(seed, "C09", i)
         D = int(rng.choice([1, 2, 3, 4, 5], p=[0.3, 0.35, 0.2, 0.1, 0.05]))
         mode = str(rng.choice(gen.MODES, p=[0.3, 0.15, 0.15, 0.1, 0.3]))
-        fam = str(rng.choice(["plain", "cons-hard", "dup-pressure", "budget-edge", "plateau", "iter-edge"], p=[0.2, 0.2, 0.2, 0.2, 0.1, 0.1]))
+        fam = str(rng.choice(["plain", "cons-hard", "dup-pressure", "budget-edge", "plateau", "iter-edge", "tiny-sd"], p=[0.17, 0.2, 0.2, 0.18, 0.1, 0.08, 0.07]))
         opts = {}
         cons = "none"
         geom = str(rng.choice(gen.GEOMS))
@@ -52,6 +52,16 @@ def cases(tier, seed):
             mfe = int(rng.choice([1, 2, 3, 4, 5, 6, 8, 10, 17, 20, 21, 22, 25, 30, 33, 34, 35, 36, 40, 43, 44, 45]))
             if rng.random() < 0.5:
                 opts["noise_final_samples"] = int(rng.choice([0, 1, 10]))
+        elif fam == "tiny-sd":
+            # an (almost) deterministic target that REPORTS a tiny SD: GP fits fail naturally and the retry /
+            # point-pruning paths of the robust refit run with a noise vector present
+            mode = "he"
+            sigma = float(rng.choice([1e-8, 1e-6, 1e-4]))
+            D = int(rng.choice([2, 3, 4]))
+            land = str(rng.choice(["quad", "sphere", "rosen", "bowl4"]))
+            geom = str(rng.choice(["lin", "tight", "unb"]))
+            mfe = int(rng.choice([120, 160, 200]))
+            x0mode = "in"
         elif fam == "plateau":
             land = str(rng.choice(["const", "stair"]))
             mode = str(rng.choice(["det", "auto"]))
@@ -101,7 +111,7 @@ def summarize(records, tier, seed):
             nt.add((s["noise"]["mode"], s["cons"]["kind"], s["geom"], s["target"]["kind"], tuple(sorted(f & set(RARE)))))
     extra = {"status": C.status_hist(records), "rare_paths_reached_runs": rare,
              "rare_paths_never_reached": [k for k, v in rare.items() if v == 0],
-             "families": {k: sum(1 for r in records if r.get("fam") == k) for k in ("plain", "cons-hard", "dup-pressure", "budget-edge", "plateau", "iter-edge")},
+             "families": {k: sum(1 for r in records if r.get("fam") == k) for k in ("plain", "cons-hard", "dup-pressure", "budget-edge", "plateau", "iter-edge", "tiny-sd")},
              "duplicate_merges_total": C.count_sum(records, "duplicate_merges"),
              "completed_runs": sum(1 for r in records if r.get("status") == "ok"),
              "exceptions_by_signature": C.other_property_aborts(records, "C09")}
